@@ -396,6 +396,18 @@ theorem pretty_text_layout_second_pass (cfg : Cfg) (hm : cfg.mini = false) (hi :
   obtain ⟨out2, toks3, g1, g2, g3, g4⟩ := pretty_text_layout_tokens cfg hm hi dt hdt n st sc _ s1 n1 _ w1 p1
   exact ⟨_, _, out2, toks3, f1, l1, g1, g2, g3, g4⟩
 
+/-- **The hypothesis `NoWrapper` is needed for the layout law** (the property excludes the reserved name): in the strict
+    document `<div><xxxblank><p></p></xxxblank></div>` the element carrying the wrapper's name does not count as a level,
+    so `<p >` — two elements open — is written after one unit instead of two. -/
+theorem layout_needs_no_reserved_name :
+    okIs (format (mkCfg .pretty (.str (str "  ")) false)
+      (strictToks none (.elem (str "div") {} false [.elem (str "xxxblank") {} false [.elem (str "p") {} false []]])))
+      "\n<div >\n  <xxxblank >\n  <p >\n  </p>\n  </xxxblank>\n</div>" = true
+    ∧ (FNode.elem (str "div") {} false [.elem (str "xxxblank") {} false [.elem (str "p") {} false []]]).Strict := by
+  refine ⟨by decide, ?_⟩
+  simp only [FNode.Strict, StrictL]
+  decide
+
 /-- "ends with a line break and `d` copies of the unit", read as a statement about the line the tag is on: when the unit
     has no line break (`IndentWS`), the text between the last line break of `before` and the tag is exactly `d` copies
     of the unit, and there is such a line break. -/
